@@ -186,6 +186,15 @@ fn cap_programs(n: usize) -> Vec<(String, Vec<String>, bool)> {
     }
     l.push(format!("{} PRINT Q1(1)", 1000 + 10 * (k + 1)));
     v.push((format!("{} GOSUBs then {} functions", k, n - k), l, over));
+    // exactly 32 GOSUB frames open, then one function call (only for the over-the-cap case)
+    if over {
+        let mut l: Vec<String> = vec!["1 DEF Q1(X)=X".to_string()];
+        for i in 1..=32 {
+            l.push(format!("{} GOSUB {}", 1000 + 10 * i, 1000 + 10 * (i + 1)));
+        }
+        l.push(format!("{} PRINT Q1(1)", 1000 + 10 * 33));
+        v.push(("32 GOSUBs then 1 function".to_string(), l, true));
+    }
     // n distinct open FOR loops
     let mut l: Vec<String> = (1..=n).map(|i| format!("{} FOR V{}=1 TO 2", 10 * i, i)).collect();
     l.push(format!("{} PRINT \"in\"", 10 * (n + 1)));
